@@ -102,7 +102,7 @@ func (ft *fileTx) mapLoc(ix *ast.IndexExpr) (t4loc, bool) {
 	if t == nil {
 		return t4loc{}, false
 	}
-	if _, ok := t.Underlying().(*types.Map); !ok {
+	if !isMapType(t) {
 		return t4loc{}, false
 	}
 	root := chainRoot(ix.X)
@@ -268,6 +268,9 @@ func (ft *fileTx) t4Func(fd *ast.FuncDecl, fname string) bool {
 					if mu, lock, ok := ft.lockCall(call); ok {
 						ft.needSim = true
 						if lock {
+							// wait inside the simulator while another task holds the mutex, then take it for real
+							mode := call.Fun.(*ast.SelectorExpr).Sel.Name
+							out = append(out, &ast.ExprStmt{X: &ast.CallExpr{Fun: sel("zsim", "AwaitLock"), Args: []ast.Expr{addrOfMutex(ft, mu), strLit(mode)}}})
 							post = append(post, &ast.ExprStmt{X: &ast.CallExpr{Fun: sel("zsim", "Lock"), Args: []ast.Expr{addrOfMutex(ft, mu)}}})
 						} else {
 							out = append(out, &ast.ExprStmt{X: &ast.CallExpr{Fun: sel("zsim", "Unlock"), Args: []ast.Expr{addrOfMutex(ft, mu)}}})
